@@ -306,3 +306,56 @@ Definition first_query (c : cfg) (q0 : str) (last : str) : str := request_query 
 (* buildReferrersURL: "?artifactType=<escaped>" when an artifact type is asked for *)
 Definition referrers_q0 (a : str) : str :=
   if is_empty a then [] else k_at ++ c_eq :: query_escape a.
+
+(* ---------- the page loop on strings ---------- *)
+
+(* Tags / Repositories / referrersByAPI as the code runs them: the URL is a string; every page
+   request is (path, raw query).  Same structure as Paging.loop, with the request built by
+   [request_query] (setQueryParams) and the link followed by [resolve_ref] (net/url).
+   None: the run left the judged subset of net/url. *)
+Record sreq := mkSR { sr_path : str; sr_query : str }.
+Record strace := mkST { st_reqs : list sreq; st_pages : list (list item); st_out : outcome }.
+
+Section ClientS.
+  Variable sch host : str.                       (* scheme and host of the registry *)
+  Variable serve_s : nat -> sreq -> response.
+  Variable cb_fail : nat -> bool.
+  Variable c : cfg.
+
+  Definition prepend_s (rq : sreq) (pg : list (list item)) (t : option strace) : option strace :=
+    match t with
+    | Some t' => Some (mkST (rq :: st_reqs t') (pg ++ st_pages t') (st_out t'))
+    | None => None
+    end.
+
+  Fixpoint loop_s (fuel : nat) (i k : nat) (p raw last : str) : option strace :=
+    match fuel with
+    | O => Some (mkST [] [] OutOfFuel)
+    | S fuel' =>
+      let rq := mkSR p (request_query c raw last) in
+      let rs := serve_s i rq in
+      match handle c rs with
+      | inl e => Some (mkST [rq] [] e)
+      | inr page =>
+        let dl := delivered c page in
+        if dl && cb_fail k then Some (mkST [rq] [page] ErrCallback)
+        else
+          let pg := if dl then [page] else [] in
+          let k' := if dl then S k else k in
+          match parse_link (rs_link rs) with
+          | LNone => Some (mkST [rq] pg Done)
+          | LErrLt | LErrGt => Some (mkST [rq] pg ErrLink)
+          | LTarget t =>
+            match resolve_ref (mkS sch host (sr_path rq) (sr_query rq)) t with
+            | RErr => Some (mkST [rq] pg ErrResolve)
+            | RUnjudged => None
+            | ROk u =>
+              match s_path u with
+              | [] => None
+              | _ => prepend_s rq pg (loop_s fuel' (S i) k' (s_path u) (s_query u) [])
+              end
+            end
+          end
+      end
+    end.
+End ClientS.
